@@ -186,7 +186,8 @@ def _check(ex, step, rec, where):
     ex.last = (actor, step.get('fam', '?'))
     r = {'actor': actor, 'id': step.get('id'), 'status': rec.get('status'), 'fired': is_fault, 'key': key,
          'prec': ex.model.get(actor)[0], 'tol': step.get('tol', 8), 'exact': bool(step.get('exact')),
-         'trap': bool(ex.settings.get(actor, {}).get('trap_complex', False))}
+         'trap': bool(ex.settings.get(actor, {}).get('trap_complex', False)),
+         'pretty': bool(ex.settings.get(actor, {}).get('pretty', False))}
     if rec.get('status') == 'ok' or (rec.get('status') == 'absorbed' and not is_fault):
         enc = codec.encode(rec.get('_res'))
         r['value'] = enc
@@ -314,7 +315,7 @@ def _judge(res, mode, budget, seed_base):
             continue
         s2 = _strip_owner(json.loads(json.dumps(step))); s2['actor'] = 'mp'
         # the reference mp gets the clone's own settings (trap_complex changes outcomes by specification)
-        setup = [{'kind': 'setting', 'actor': 'mp', 'name': 'trap_complex', 'value': True}] if r.get('trap') else None
+        setup = [{'kind': 'setting', 'actor': 'mp', 'name': n, 'value': True} for n, on in (('trap_complex', r.get('trap')), ('pretty', r.get('pretty'))) if on] or None
         f = refs.pristine_eval(s2, r['prec'], mode=mode, seed_base=seed_base, setup=setup)
         if f is None:
             continue
